@@ -95,9 +95,11 @@ class ObCtx:
         for f in set(v for v in eng.inline.values() if hasattr(v, "text_hash")) | set(eng.inlined_fns):
             self.rec["functions"][sym.short_name(f.name)] = f.text_hash
         real = [p for p in paths if p.outcome != "infeasible"]
-        self.rec["paths"] += len(real)
-        for p in real:
-            self.rec["paths_by_outcome"][p.outcome] = self.rec["paths_by_outcome"].get(p.outcome, 0) + 1
+        for oc, cnt in eng.outcomes.items():
+            if oc == "infeasible":
+                continue
+            self.rec["paths"] += cnt
+            self.rec["paths_by_outcome"][oc] = self.rec["paths_by_outcome"].get(oc, 0) + cnt
         self.rec["blocks"] += eng.stats["blocks"]
         self.rec["solver_s"] += eng.stats["solver_s"]
         self.rec["pruned"] += eng.stats["branches_pruned"]
@@ -105,6 +107,8 @@ class ObCtx:
         self.run.total_branch_checks += eng.stats["solver_checks"]
         for k in eng.stats:
             eng.stats[k] = 0 if not isinstance(eng.stats[k], float) else 0.0
+        if isinstance(self.rec.get("contracts"), set):
+            self.rec["contracts"] = sorted(self.rec["contracts"])
         uns = [p for p in real if p.outcome == "unsupported"]
         if uns:
             for p in uns[:3]:
